@@ -66,6 +66,7 @@ struct fiber {
 	struct dmap dm;
 	void *cs[48]; int ncs;     /* shadow call stack (call-site PCs) */
 };
+static char *stack_low[MC_MAXF];   /* lowest address of each fiber stack that may hold non-zero bytes */
 static struct fiber F[MAXF];
 static int nfib, nscen;            /* fibers in this scenario (incl. observer), scenario threads */
 static int cur = -1;               /* running fiber, -1 = scheduler / init */
@@ -380,7 +381,9 @@ static void fiber_create (int i, int observer) {
 	char *stack = f->stack;
 	memset (f, 0, sizeof *f);
 	f->stack = stack;
-	memset (stack + STK - STK_USABLE, 0, STK_USABLE);
+	if (stack_low[i] == NULL) stack_low[i] = stack + STK - STK_USABLE;
+	memset (stack_low[i], 0, stack + STK - stack_low[i]);
+	stack_low[i] = stack + STK - 256;
 	uintptr_t *top = (uintptr_t *)(stack + STK - 64);
 	/* layout expected by mc_switch_: r15 r14 r13 r12 rbx rbp ret */
 	top -= 1; *top = 0;                       /* fake return address slot: keeps (rsp+8)%16==0 at entry */
@@ -764,6 +767,7 @@ static void hbytes (uint64_t h[2], const void *p, size_t n) {
 	if (n & 7) { uint64_t t = 0; memcpy (&t, (const char *)p + k * 8, n & 7); hmix (h, t); }
 	hmix (h, n);
 }
+static char *mc_snap;
 static FILE *hashdbg;
 static void state_hash (int last, uint64_t h[2]) {
 	h[0] = 0x1234567887654321ULL; h[1] = 0xfedcba9876543210ULL;
@@ -776,7 +780,15 @@ static void state_hash (int last, uint64_t h[2]) {
 	}
 	hbytes (h, ARENA_BASE, arena_off);
 	for (int i = 0; i < nblk; i++) hmix (h, blks[i].live);
-	hbytes (h, __start_mcstate, __stop_mcstate - __start_mcstate);
+	/* static state of the code under test and of the harness: only the 64-byte chunks that differ
+	   from the start-up snapshot are hashed (with their position); most of it belongs to families
+	   that are not running and never changes */
+	{
+		size_t msz = __stop_mcstate - __start_mcstate, off;
+		for (off = 0; off + 64 <= msz; off += 64)
+			if (memcmp (__start_mcstate + off, mc_snap + off, 64) != 0) { hmix (h, off); hbytes (h, __start_mcstate + off, 64); }
+		if (off < msz && memcmp (__start_mcstate + off, mc_snap + off, msz - off) != 0) { hmix (h, off); hbytes (h, __start_mcstate + off, msz - off); }
+	}
 	for (int i = 0; i < nfib; i++) {
 		struct fiber *f = &F[i];
 		hmix (h, (uint64_t)f->st | ((uint64_t)f->woken << 8) | ((uint64_t)f->fault << 16) | ((uint64_t)f->blocks << 32) | ((uint64_t)f->sleeps << 48) | ((uint64_t)f->blocks_armed << 24));
@@ -882,14 +894,13 @@ static int64_t next_instant (void) {
 	return t;
 }
 
-static char *mc_snap;
 
 /* Runs one execution following choice[0..prefix_len) and then the default
    (first) option.  Returns 0 completed, 1 violation, 2 pruned, 3 horizon. */
 static int run_execution (void) {
 	size_t msz = __stop_mcstate - __start_mcstate;
 	if (!mc_snap) { mc_snap = malloc (msz); memcpy (mc_snap, __start_mcstate, msz); }
-	else memcpy (__start_mcstate, mc_snap, msz);
+	else { size_t off; for (off = 0; off < msz; off += 256) { size_t n = msz - off < 256 ? msz - off : 256; if (memcmp (__start_mcstate + off, mc_snap + off, n) != 0) memcpy (__start_mcstate + off, mc_snap + off, n); } }
 	memset (ARENA_BASE, 0, arena_hi); arena_off = 0; arena_hi = 0; nblk = 0; alloc_count = 0; fail_alloc_at = 0;
 	now_ns = MC_T0; ninst = 0; fault_mask = 0; nnames = 0; hint_next = -1;
 	have_viol = 0; viol[0] = 0; viol_pc[0] = viol_pc[1] = viol_pc[2] = 0;
@@ -954,6 +965,9 @@ static int run_execution (void) {
 				char *lo = (char *)F[i].sp - 2048, *lim = F[i].stack + STK - STK_USABLE;
 				if (lo < lim) lo = lim;
 				if (lo < (char *)F[i].sp) memset (lo, 0, (char *)F[i].sp - lo);
+				/* everything a step may have dirtied lies above sp - 8 KiB (sched_point checks the depth of
+				   the deepest frames separately); remember how far down the next reset has to clear */
+				if ((char *)F[i].sp - 8192 < stack_low[i]) stack_low[i] = (char *)F[i].sp - 8192 < lim ? lim : (char *)F[i].sp - 8192;
 			}
 			if (have_viol) { result = 1; break; }
 		}
